@@ -1,6 +1,7 @@
 // C05: feed a call sequence to a real SmodelsOutput, then read the written bytes back with SmodelsInput + Recorder.
-// Case: N ext falseAtom <encoded calls>
-// Observation: len bytes... ok  <reader calls> status line nerr      (ok = 0 when the writer threw; feeding stops there)
+// Case: N e falseAtom <encoded calls>      e = 0/1: ext off/on, feeding stops at the first refusal (exception)
+//                                           e = 2/3: ext off/on, the caller CATCHES every refusal and continues with the same writer
+// Observation: len bytes... ok  [continue mode: ncalls flag...]  <reader calls> status line nerr   (ok = 0 when the writer threw)
 #include "rec.h"
 #include <potassco/smodels.h>
 static int g_line = 0, g_nerr = 0;
@@ -10,17 +11,30 @@ int main() {
 	while (readCase(c)) {
 		ll n = c.next();
 		if (n != Potassco::BufferedStream::BUF_SIZE) { o.add(-999); o.flush(); continue; }
-		bool ext = c.next() != 0;
+		ll e = c.next();
+		bool cont = e == 2 || e == 3;
+		bool ext = cont ? e == 3 : e != 0;
+		std::vector<int> flags;
 		Potassco::Atom_t fAtom = (Potassco::Atom_t)c.next();
 		std::ostringstream os;
 		int ok = 1;
 		{
 			Potassco::SmodelsOutput out(os, ext, fAtom);
-			try { while (playCall(c, out)) { ; } }
-			catch (const std::exception&) { ok = 0; }
+			if (!cont) {
+				try { while (playCall(c, out)) { ; } }
+				catch (const std::exception&) { ok = 0; }
+			}
+			else {
+				// playCall consumes all arguments of a call before it invokes it, so after an exception the case is positioned at the next call
+				for (bool more = true; more;) {
+					try { more = playCall(c, out); if (more) flags.push_back(1); }
+					catch (const std::exception&) { flags.push_back(0); ok = 0; }
+				}
+			}
 		}
 		std::string text = os.str();
 		o.add((ll)text.size()); o.addBytes(text.data(), text.size()); o.add(ok);
+		if (cont) { o.add((ll)flags.size()); for (size_t i = 0; i != flags.size(); ++i) o.add(flags[i]); }
 		Potassco::SmodelsInput::Options op;
 		if (ext) op.enableClaspExt();
 		std::istringstream is(text);
